@@ -52,7 +52,7 @@ def meas_circuit_recipes(draw, max_w=4, max_ops=10, qudits=False, clifford=False
     else:
         pred = lambda f: f.unitary and not f.qudit and "zeroq" not in f.tags
     for i in range(nops):
-        kind = draw(st.sampled_from(["g", "g", "g", "m", "m", "r", "cg", "cg", "cg", "ch", "pm"]))
+        kind = draw(st.sampled_from(["g", "g", "g", "m", "m", "r", "cg", "cg", "cg", "ch", "pm", "pm"]))
         if kind == "pm":
             qw = [j for j, d in enumerate(dims) if d == 2]
             if not pauli_meas or not qw or budget < 2:
